@@ -192,7 +192,8 @@ pub fn run(args: &Args) {
     let histories = args.n;
     let ops_per_history: usize = args.kv.get("ops").and_then(|v| v.parse().ok()).unwrap_or(2000);
     for h in 0..histories {
-        let pool_seed = (args.seed * 7 + h % 4) as u64; // a few pools, many histories each
+        let npools: u64 = args.kv.get("pools").and_then(|v| v.parse().ok()).unwrap_or(8);
+        let pool_seed = (args.seed * 1000 + h % npools) as u64; // a few pools, many histories each
         let (exprs, docs) = pool(pool_seed);
         let truth = truth_table(&exprs, &docs, None);
         let th: Vec<Vec<u64>> = truth.iter().map(|row| row.iter().map(|s| fnv(s.as_bytes())).collect()).collect();
